@@ -1,5 +1,5 @@
 (** C06 — built-in functions enforce their signatures.  Statements only. *)
-From JP Require Import Base F64 Value Sig Functions Interp Gen.Tables Spec.SigSpec Proofs.CmpProof Proofs.SigProof Proofs.CallProof.
+From JP Require Import Base F64 Value Sig Functions Interp Gen.Tables Spec.SigSpec Proofs.CmpProof Proofs.SigProof Proofs.CallProof Proofs.SigE2E.
 
 (** The registration list extracted from the source on this run is the
     specification's table: the 26 names, each bound to a struct whose declared
@@ -56,6 +56,20 @@ Theorem C06_first_bad_none_iff : forall sg args k,
     exists j, (j < i)%nat /\ param_type sg (k + j) = None.
 Proof. exact first_bad_none_iff. Qed.
 Print Assumptions C06_first_bad_none_iff.
+
+(** End to end: for every function of the registration list read from the source
+    on this run, the code's check of a call IS the specification's verdict on that
+    name, read from the specification's table alone — accepted, not enough / too
+    many arguments with the expected and actual counts, or the position of the
+    first ill-typed argument — for all argument lists in which an expression
+    reference only appears where the declared type does not mention [any] (the
+    known finding above). *)
+Theorem C06_call_check_is_specified_verdict : forall name strct sg args off,
+  In (name, strct, sg) gen_registry ->
+  args_compat (sig_inputs sg) (sig_variadic sg) args ->
+  verdict (validate sg args off) = Some (spec_verdict name args).
+Proof. intros name strct sg args off. apply registry_call_is_spec_verdict. exact C06_signature_table. Qed.
+Print Assumptions C06_call_check_is_specified_verdict.
 
 (** Every builtin checks its signature before anything else ... *)
 Theorem C06_call_validates_first : forall ev b sg args off e,
